@@ -55,6 +55,9 @@ func genC10(seed int64, tier string) *Scenario {
 	r := rand.New(rand.NewSource(seed))
 	sc := &Scenario{Prop: "C10", Seed: seed, Knobs: map[string]interface{}{}}
 	names := []string{"a.lua", "b.lua", "sub/c.lua"}
+	// a client that goes on right after `initialized`: whatever the start-up leaves running overlaps
+	// the first messages
+	sc.Eager = r.Intn(4) == 0
 	if r.Intn(2) == 0 {
 		sc.Plugin = true
 		names = append(names, "/outside/o.lua")
